@@ -548,8 +548,15 @@ package proxy
 
 // C09: a newer remote claim evicts an older local one; an older or equal claim, and every unregister
 // announcement, leave local ownership alone. The eviction names the local registration it read.
+//@ ghost shardDelegate.evicted bool
+//@ extern (*shardManagerImpl).UnregisterShard@(*shardDelegate).NotifyMsg(sm, clientShardID, expectedRegisteredAt)
+//@   requires sm.localShards != nil
+//@   ensures sd.evicted
+//@   assigns contents(sm.localShards), sd.evicted
 //@ contract (*shardDelegate).NotifyMsg
 //@   props C09
+//@   requires !sd.evicted
+//@   ensures @newer_claim_evicts: (sd.manager != nil && sd.manager.onRemoteShardChange != nil && err == nil && msg.Type == "register" && ok && localShard.Created < msg.Timestamp) ==> sd.evicted
 //@   requires sd.manager != nil ==> sd.manager.localShards != nil
 //@   callpre UnregisterShard: @newer_claim_only: msg.Type == "register" && localShard.Created < msg.Timestamp &&
 //@        $clientShardID == msg.ClientShard && $expectedRegisteredAt == localShard.Created
